@@ -91,13 +91,15 @@ fn corrupt_sp(p: &SurjectionProof) -> Option<SurjectionProof> {
 /// (applicable, changes) as Model/Tamper.v defines them, evaluated on the real structures; then the tamper itself
 pub fn apply_tamper(t: &Tamper, tx: &mut Transaction, spent: &mut Vec<TxOut>) -> Option<(bool, bool)> {
     let n = tx.output.len();
-    let conf_asset_out = tx.output.iter().any(|o| o.asset.is_confidential());
+    // an output verify_tx_amt_proofs skips: explicit zero amount on a provably unspendable script (nothing on it is ever read)
+    let live = |o: &TxOut| !(o.value == Value::Explicit(0) && o.script_pubkey.is_provably_unspendable());
+    let conf_asset_out = tx.output.iter().any(|o| live(o) && o.asset.is_confidential());
     let two = |j: usize, k: usize| j != k && j < n && k < n;
     Some(match t {
         Tamper::OutValue(j, v, _) => { if *j >= n { return Some((false, false)); } let r = (vkind(&tx.output[*j].value, v), tx.output[*j].value != *v); tx.output[*j].value = *v; r }
-        Tamper::OutAsset(j, a, _) => { if *j >= n { return Some((false, false)); } let r = (akind(&tx.output[*j].asset, a), tx.output[*j].asset != *a); tx.output[*j].asset = *a; r }
+        Tamper::OutAsset(j, a, _) => { if *j >= n { return Some((false, false)); } let r = (live(&tx.output[*j]) && akind(&tx.output[*j].asset, a), tx.output[*j].asset != *a); tx.output[*j].asset = *a; r }
         Tamper::SwapValue(j, k) => { if !two(*j, *k) { return Some((false, false)); } let (a, b) = (tx.output[*j].value, tx.output[*k].value); tx.output[*j].value = b; tx.output[*k].value = a; (a.is_confidential() && b.is_confidential(), a != b) }
-        Tamper::SwapAsset(j, k) => { if !two(*j, *k) { return Some((false, false)); } let (a, b) = (tx.output[*j].asset, tx.output[*k].asset); tx.output[*j].asset = b; tx.output[*k].asset = a; (a.is_confidential() && b.is_confidential(), a != b) }
+        Tamper::SwapAsset(j, k) => { if !two(*j, *k) { return Some((false, false)); } let lv = live(&tx.output[*j]) && live(&tx.output[*k]); let (a, b) = (tx.output[*j].asset, tx.output[*k].asset); tx.output[*j].asset = b; tx.output[*k].asset = a; (lv && a.is_confidential() && b.is_confidential(), a != b) }
         Tamper::RemoveRp(j) => { if *j >= n { return Some((false, false)); } let app = tx.output[*j].value.is_confidential() && tx.output[*j].witness.rangeproof.is_some(); tx.output[*j].witness.rangeproof = None; (app, true) }
         Tamper::CorruptRp(j) => { if *j >= n { return Some((false, false)); } let app = tx.output[*j].value.is_confidential() && tx.output[*j].witness.rangeproof.is_some();
             if let Some(p) = tx.output[*j].witness.rangeproof.clone() { tx.output[*j].witness.rangeproof = Some(Box::new(corrupt_rp(&p)?)); } (app, true) }
@@ -107,11 +109,11 @@ pub fn apply_tamper(t: &Tamper, tx: &mut Transaction, spent: &mut Vec<TxOut>) ->
             let same = x.value == y.value && x.script_pubkey == y.script_pubkey && x.asset == y.asset;
             let (a, b) = (tx.output[*j].witness.rangeproof.clone(), tx.output[*k].witness.rangeproof.clone());
             tx.output[*j].witness.rangeproof = b; tx.output[*k].witness.rangeproof = a; (app, !same) }
-        Tamper::RemoveSp(j) => { if *j >= n { return Some((false, false)); } let app = tx.output[*j].asset.is_confidential() && tx.output[*j].witness.surjection_proof.is_some(); tx.output[*j].witness.surjection_proof = None; (app, true) }
-        Tamper::CorruptSp(j) => { if *j >= n { return Some((false, false)); } let app = tx.output[*j].asset.is_confidential() && tx.output[*j].witness.surjection_proof.is_some();
+        Tamper::RemoveSp(j) => { if *j >= n { return Some((false, false)); } let app = live(&tx.output[*j]) && tx.output[*j].asset.is_confidential() && tx.output[*j].witness.surjection_proof.is_some(); tx.output[*j].witness.surjection_proof = None; (app, true) }
+        Tamper::CorruptSp(j) => { if *j >= n { return Some((false, false)); } let app = live(&tx.output[*j]) && tx.output[*j].asset.is_confidential() && tx.output[*j].witness.surjection_proof.is_some();
             if let Some(p) = tx.output[*j].witness.surjection_proof.clone() { tx.output[*j].witness.surjection_proof = Some(Box::new(corrupt_sp(&p)?)); } (app, true) }
         Tamper::SwapSp(j, k) => { if !two(*j, *k) { return Some((false, false)); }
-            let app = tx.output[*j].asset.is_confidential() && tx.output[*k].asset.is_confidential();
+            let app = live(&tx.output[*j]) && live(&tx.output[*k]) && tx.output[*j].asset.is_confidential() && tx.output[*k].asset.is_confidential();
             let chg = tx.output[*j].asset != tx.output[*k].asset;
             let (a, b) = (tx.output[*j].witness.surjection_proof.clone(), tx.output[*k].witness.surjection_proof.clone());
             tx.output[*j].witness.surjection_proof = b; tx.output[*k].witness.surjection_proof = a; (app, chg) }
@@ -179,7 +181,7 @@ fn eval_explicit(case: &str) -> Out {
     let all_explicit = spec.ins.iter().all(|s| s.ea && s.ev);
     let pred_fail = if !all_explicit || expected == (verdict == "ok") { None }
         else if expected && spec.outs.iter().any(|o| o.value == 0 && unspendable(o)) {
-            Some("F13-zero-value-opreturn-rejected|a balanced explicit transaction with an explicit zero-value output on a provably unspendable script (OP_RETURN / fee) is rejected: ZeroValueCommitment is propagated instead of skipped".to_string())
+            Some("F13-zero-value-opreturn-rejected|a balanced explicit transaction with an explicit zero-value output on a provably unspendable script (OP_RETURN / fee) is rejected: ZeroValueCommitment is propagated instead of skipped (regression of repair b3b2d40)".to_string())
         } else { Some(format!("explicit-iff-violated|all-explicit transaction: property predicts {} but verify_tx_amt_proofs says {}", if expected { "accept" } else { "reject" }, verdict)) };
     Out { result: verdict, pred_fail }
 }
